@@ -1433,9 +1433,12 @@ class DistPearson6(DistContinuous):
     def probability_density(self, x: float) -> float:
         """Returns the probability density value for value x."""
         if x > 0:
-            return (math.pow(x / self._beta, self._alpha1 - 1) 
-                   / (self._beta * beta(self._alpha1, self._alpha2)
-                   * math.pow(1 + x / self._beta, self._alpha1 + self._alpha2))) 
+            # (x/b)^(a1-1) / (1+x/b)^(a1+a2) regrouped so that no factor can
+            # overflow for large x: (xb/(1+xb))^(a1-1) * (1+xb)^-(a2+1)
+            xb = x / self._beta
+            return (math.pow(xb / (1 + xb), self._alpha1 - 1)
+                   * math.pow(1 + xb, -(self._alpha2 + 1))
+                   / (self._beta * beta(self._alpha1, self._alpha2)))
         return 0.0
 
     @property
